@@ -366,6 +366,21 @@ EXTRA_CLI = [
      'int (*pick(int sel, long bias))(int) { static int chk_a = sizeof(sel); static int chk_b = sizeof(bias); return id; }\n'
      'int (*(*pick2(short sel))(int bias))(int) { static int chk_c = sizeof(sel); static int chk_d = sizeof(bias); return 0; }\n',
      [('chk_a', 4), ('chk_b', 8), ('chk_c', 2), ('chk_d', 9)]),
+    # tags and enumeration constants first declared inside a member list belong to the enclosing scope (members have none)
+    ('enum { K = 3 }; struct B { char c[2]; };\n'
+     'void f(void) { struct A { struct B { char c[6]; } b; enum { K = 5 } e; struct In *link; } a; static int chk_a = sizeof(struct B); static int chk_b = K; static int chk_c = sizeof(a);'
+     ' struct In { char z[9]; }; static int chk_d = sizeof(*a.link); }\n'
+     'struct O { struct P { char c[11]; } p; enum { Q = 13 } q; }; static int chk_e = sizeof(struct P); static int chk_f = Q;\n',
+     [('chk_a', 6), ('chk_b', 5), ('chk_c', 24), ('chk_d', 9), ('chk_e', 11), ('chk_f', 13)]),
+    # an enum with a fixed underlying type defined in an inner scope is a new type even when an outer tag of that name exists
+    ('enum E : short { A1 = 1 }; void g(void) { enum E : long { B1 = 2 }; static int chk_g = sizeof(enum E); } static int chk_h = sizeof(enum E);\n'
+     'enum G : short; void h(void) { enum G : long { Z = 1 }; static int chk_i = sizeof(enum G); static int chk_j = sizeof Z; }\n',
+     [('chk_g', 8), ('chk_h', 2), ('chk_i', 8), ('chk_j', 8)]),
+    # every character of a name is significant (names that agree on their first 70 characters)
+    ((lambda P: 'enum { %sa = 11, %sb = 22, %sc = 33 }; typedef char %st1[3]; typedef char %st2[5]; struct %ss1 { char c[7]; }; struct %ss2 { char c[9]; };\n'
+                'static int chk_a = %sa, chk_b = %sb, chk_c = %sc, chk_d = sizeof(%st1), chk_e = sizeof(%st2), chk_f = sizeof(struct %ss1), chk_g = sizeof(struct %ss2);\n'
+                'void f(void) { enum { %sb = 200 }; static int chk_h = %sa, chk_i = %sb; }\n' % ((P,) * 17))('p' * 70),
+     [('chk_a', 11), ('chk_b', 22), ('chk_c', 33), ('chk_d', 3), ('chk_e', 5), ('chk_f', 7), ('chk_g', 9), ('chk_h', 11), ('chk_i', 200)]),
     # block-scope extern / function declarations find the visible file-scope entity through the intermediate scopes (6.2.2p4)
     ('static int counter = 5; static int helper(int x) { return x; }\n'
      'int f(int p) { extern int counter; int helper(int); { extern int counter; { int helper(int); return helper(counter + p); } } }\nstatic int chk_a = sizeof(counter);\n',
